@@ -6,7 +6,7 @@ Japanese, many track layouts, time bases)."""
 import vlib, evgen, mmlgen
 
 COQ_TARGET = "props/C01.v"
-THEOREMS = ["C01_container", "C01_bigendian16", "C01_bigendian32"]
+THEOREMS = ["C01_container", "C01_bigendian16", "C01_bigendian32", "C01_compile_container", "C01_dims_from_source"]
 RULE = ("constructed songs (1..40 tracks) and compiled sources: core-language programs with TR(0..999) in any order and "
         "TimeBase 24..40000, junk text, Japanese notation, sample songs and mutations; non-trivial = distinct input with >= 2 "
         "tracks or a non-default time base")
